@@ -66,6 +66,11 @@ type n4Eval struct {
 	n   int
 	fns []*ssa.Function
 	why string
+	// T12: values replaced by a number (the count of a comparison), Definition.Nodes read directly as n, and whether
+	// the evaluation read the cluster size at all
+	subst       map[ssa.Value]float64
+	nodesDirect bool
+	usedN       bool
 }
 
 func (e *n4Eval) fail(format string, a ...any) (float64, bool) {
@@ -114,6 +119,9 @@ func n4IsNodesField(structT types.Type, idx int) bool {
 func (e *n4Eval) num(v ssa.Value, env *n4Env, d int) (float64, bool) {
 	if d > 24 {
 		return e.fail("expression too deep")
+	}
+	if f, ok := e.subst[v]; ok {
+		return f, true
 	}
 	switch x := v.(type) {
 	case *ssa.Const:
@@ -183,6 +191,7 @@ func (e *n4Eval) num(v ssa.Value, env *n4Env, d int) (float64, bool) {
 					return e.field(al, a.Field, env, d+1)
 				}
 				if n4IsNodesField(a.X.Type(), a.Field) {
+					e.usedN = true
 					return float64(e.n), true // the Nodes of the cluster's definition
 				}
 			}
@@ -240,6 +249,7 @@ func (e *n4Eval) num(v ssa.Value, env *n4Env, d int) (float64, bool) {
 			switch b.Name() {
 			case "len":
 				if len(cc.Args) == 1 && n4PerMember(cc.Args[0].Type()) {
+					e.usedN = true
 					return float64(e.n), true
 				}
 				return e.fail("len of something that is not a per-member collection")
@@ -309,6 +319,10 @@ func (e *n4Eval) num(v ssa.Value, env *n4Env, d int) (float64, bool) {
 func (e *n4Eval) field(s ssa.Value, idx int, env *n4Env, d int) (float64, bool) {
 	if d > 24 {
 		return e.fail("expression too deep")
+	}
+	if e.nodesDirect && n4IsNodesField(s.Type(), idx) {
+		e.usedN = true
+		return float64(e.n), true
 	}
 	switch x := s.(type) {
 	case *ssa.Parameter:
@@ -405,6 +419,7 @@ func (e *n4Eval) field(s ssa.Value, idx int, env *n4Env, d int) (float64, bool) 
 		}
 	}
 	if n4IsNodesField(s.Type(), idx) {
+		e.usedN = true
 		return float64(e.n), true // the Nodes of the cluster's definition
 	}
 	return e.fail("a struct field that is not resolved")
